@@ -204,6 +204,7 @@ class Ctx:
         self.T = LabelTable()
         self.next_tag = 0
         self.feats = {}
+        self.last_sorted = None
 
     def tags(self, n):
         t = list(range(self.next_tag, self.next_tag + n))
@@ -361,9 +362,11 @@ def do_step(op, ss, ctx, case_rng_seed):
             sl = slice(None)
         key, kt = key_term(op["key"])
         term = f"(OSlice {kt} {cozl(sl.start)} {cozl(sl.stop)} {cozl(sl.step)})"
+        ctx.last_sorted = None if key is None else (key, kt[len("(Some "):-1], cozl(sl.start), cozl(sl.stop), cozl(sl.step))
         return term, (lambda: ss.slice(*args, sorted_by=key))
     if k == 'truncate':
         key, kt = key_term(op["key"])
+        ctx.last_sorted = None if key is None else (key, kt[len("(Some "):-1], "None", cozl(op['n']), "None")
         return f"(OSlice {kt} None {cozl(op['n'])} None)", (lambda: ss.truncate(op["n"], sorted_by=key))
     if k == 'lowest':
         rt, at = tolv(op["rtol"], 1.e-5), tolv(op["atol"], 1.e-8)
@@ -556,14 +559,24 @@ def run_seq(c):
                 r = {"vals": [F(d.sample[v]) for v in ss.variables], "en": F(d.energy), "oc": int(d.num_occurrences),
                      "tag": int(d.tag), "extra": [F(getattr(d, nm)) for nm in names]}
                 steps.append(f"(StepFirst (Some {coq_row(r)}))")
+                seen_first = f"(Some {coq_row(r)})"
             except ValueError:
                 steps.append("(StepFirst None)")
+                seen_first = "None"
+            # the same argsort call SampleSet.data(sorted_by='energy') makes
+            order = np.argsort(ss.record['energy'])
+            steps.append(f"(StepFirstAt {clist([cnat(i) for i in order])} {seen_first})")
             continue
         before = observe(ss)
+        ctx.last_sorted = None
         try:
             term, thunk = do_step(op, ss, ctx, seed)
         except Skip:
             continue
+        sort_order = None
+        if ctx.last_sorted is not None:
+            # the same argsort call SampleSet.slice makes on the same key vector
+            sort_order = [int(i) for i in np.argsort(ss.record[ctx.last_sorted[0]])]
         inplace = op.get("inplace", False) and op["op"] in ('relabel', 'change_vartype')
         try:
             new = thunk()
@@ -589,6 +602,9 @@ def run_seq(c):
                     feats["receiver_changed"] = op["op"]
             ss = new
             post = observe(ss)
+        if sort_order is not None and not raised:
+            _, kc, a_, b_, c_ = ctx.last_sorted
+            steps.append(f"(StepSorted {kc} {a_} {b_} {c_} {clist([cnat(i) for i in sort_order])} {coq_ss(post, T)})")
         steps.append(f"(Step {term} {cbool(raised)} {coq_ss(post, T)})")
     feats["ops"] = sorted({o["op"] for o in c["steps"]})[:3] if fail else None
     coq = f"(SeqCase {coq_K(T)} {cbool(spec['sort_labels'])} {init} {coq_ss(seen0, T)} {clist(steps)})"
@@ -621,6 +637,7 @@ def run_defer(c):
     if not before:
         fut.set_result(base2)
     terms = []
+    dcalls = []
     twin_failed = False
     cur_failed = False
     all_inplace = True
@@ -636,12 +653,14 @@ def run_defer(c):
         if op["op"] == 'relabel':
             m = dict(resolve_relabel(op, labels))
             terms.append("(ORelabel %s)" % clist([cpair(cnat(T.idx(a)), cnat(T.idx(b))) for a, b in m.items()]))
+            dcalls.append("(DRelabel %s %s)" % (clist([cpair(cnat(T.idx(a)), cnat(T.idx(b))) for a, b in m.items()]), cbool(inplace)))
             call = lambda s: s.relabel_variables(dict(m), inplace=inplace)
         else:
             to = resolve_vartype(op, twin.vartype.name)
             off = F(op["off"])
             offv = float(off) if off.denominator != 1 else int(off)
             terms.append(f"(OChangeVt {VTC[to]} {cq(off)} {cbool(inplace)})")
+            dcalls.append(f"(DChangeVt {VTC[to]} {cq(off)} {cbool(inplace)})")
             call = lambda s: s.change_vartype(to, energy_offset=offv, inplace=inplace)
         try:
             twin = call(twin)
@@ -673,7 +692,8 @@ def run_defer(c):
     elif seen is not None and seen != observe(twin):
         feats["deferred_mismatch"] = True
         fail = fail or "deferred result differs from the operation on the resolved set"
-    coq = f"(DeferCase {coq_K(T)} {base_term} {clist(terms)} {copt(coq_ss(seen, T) if seen is not None else None)})"
+    coq = (f"(DeferCase {coq_K(T)} {base_term} {clist(terms)} {cbool(before)} {clist(dcalls)} "
+           f"{copt(coq_ss(seen, T) if seen is not None else None)})")
     return {"coq": coq, "py_fail": fail, "features": feats, "nontrivial": seen is not None and bool(terms)}
 
 
